@@ -272,8 +272,38 @@ def run_case(case):
                 if len(got) != len(exp) or any(not same_bound(g, e) for g, e in zip(got, exp)):
                     return viol("sorted|bounds|" + tag, "column %r: reported %s %r, data has %r" % (name, which, got, exp), labels=labels)
             labels.append("sorted_listed")
-        if len(pdata.row_groups) >= 2:
+        # ---- the derived list under a filter, and the handle's statistics afterwards
+        ng = len(pdata.row_groups)
+        if ng >= 2:
             labels.append("multi_rg")
+            intcols = [(name, col) for name, col in want if col["kind"] in ("int", "float") and all(model[(gi, name)][0] is not None for gi in range(ng))]
+            if intcols:
+                name, col = intcols[0]
+                cut = model[(ng - 1, name)][0]           # smallest value of the last row group
+                flt = [(name, ">=", cut)]
+                try:
+                    keep = api.filter_row_groups(pf, flt, as_idx=True)
+                    spc_f = api.sorted_partitioned_columns(pf, filters=flt)
+                except Exception as e:
+                    keep, spc_f = None, None
+                if keep is not None:
+                    for cname, mm in spc_f.items():
+                        c2 = cols.get(cname)
+                        if c2 is None:
+                            continue
+                        for which, j in (("min", 0), ("max", 1)):
+                            got = [api_stat_to_key(c2, x, opts) for x in mm[which]]
+                            exp = [model[(gi, cname)][j] for gi in keep]
+                            if len(got) != len(exp) or any(e is None or not same_bound(g, e) for g, e in zip(got, exp)):
+                                return viol("sorted_filtered|bounds|" + c01.col_tag(c2), "column %r under %r: reported %s %r, data of the kept row groups %r has %r"
+                                            % (cname, flt, which, got, keep, exp), labels=labels)
+                    labels.append("sorted_filtered")
+                    # the handle must still describe every row group
+                    again = pf.statistics
+                    fresh = fastparquet.ParquetFile(path).statistics
+                    if repr(again) != repr(fresh):
+                        return viol("statistics_changed_by_query", "ParquetFile.statistics differs from a fresh handle's after sorted_partitioned_columns(filters=%r)" % (flt,),
+                                    labels=labels)
     return ok(nt, labels)
 
 
